@@ -2,6 +2,7 @@ package main
 
 import (
 	"fmt"
+	"go/constant"
 	"go/token"
 	"strings"
 
@@ -79,6 +80,9 @@ func ruleC10R1(w *World, r *Report) {
 					problems = append(problems, "NodePos is not a load of the current token's Pos")
 				} else if recCall != nil {
 					ld := np.(ssa.Instruction)
+					if !instrDominates(recCall, ld) {
+						problems = append(problems, "NodePos is read before the lexer is rewound to the failed region: it is the position of whatever token the failed parse had reached")
+					}
 					for _, sq := range cursorPathsGeneric(recCall, ld, consumes) {
 						if len(sq) > 0 {
 							problems = append(problems, "a token is fetched between the rewind and the read of NodePos")
@@ -157,6 +161,9 @@ func ruleC10R1(w *World, r *Report) {
 								f, _, ok := w.curTokenField(o)
 								if !ok || (f != "End" && f != "Pos") {
 									problems = append(problems, "NodeEnd can take a value that is neither the start position (empty Bad node) nor a recorded token's End")
+								}
+								if oi, isI := o.(ssa.Instruction); ok && isI && recCall != nil && !instrDominates(recCall, oi) {
+									problems = append(problems, "NodeEnd can take a position read before the lexer is rewound to the failed region")
 								}
 							}
 						}
@@ -427,7 +434,7 @@ func ruleC10R3(w *World, r *Report) {
 
 func ruleC10R4(w *World, r *Report) {
 	const rule = "C10/R4"
-	r.rule(rule, "(*BadNode).SQL: the condition under which a separator is written between two raw tokens reads both Token.Space and Token.Comments (or there is no condition on trivia at all); raw token text is written from Token.Raw", 1)
+	r.rule(rule, "(*BadNode).SQL: the condition under which a separator is written between two raw tokens reads both Token.Space and Token.Comments (or there is no condition on trivia at all); raw token text is written from Token.Raw; every path that appends a later token without the separator takes an edge that refutes a non-empty Space and one that refutes a non-empty Comments", 3)
 	var bn *NodeStruct
 	for _, ns := range w.Catalog().Structs {
 		if ns.Name == "BadNode" {
@@ -483,4 +490,243 @@ func ruleC10R4(w *World, r *Report) {
 	default:
 		r.ok(rule, "(*BadNode).SQL", w.pos(m.Pos()), "separator decided from both trivia fields; token text from Raw")
 	}
+	// Path form: a token whose Space (resp. Comments) is non-empty is never appended without the separator, unless it is the first one.
+	var sepBlocks, rawBlocks []*ssa.BasicBlock
+	for _, b := range m.Blocks {
+		for _, in := range b.Instrs {
+			bo, ok := in.(*ssa.BinOp)
+			if !ok || bo.Op != token.ADD || !isStringType(bo.Type()) {
+				continue
+			}
+			if c, ok := bo.Y.(*ssa.Const); ok && c.Value != nil && constant.StringVal(c.Value) != "" && strings.TrimSpace(constant.StringVal(c.Value)) == "" {
+				sepBlocks = append(sepBlocks, b)
+			}
+			if f, ok := w.tokenFieldLoad(bo.Y); ok && f == "Raw" {
+				rawBlocks = append(rawBlocks, b)
+			}
+		}
+	}
+	if len(sepBlocks) != 1 || len(rawBlocks) != 1 {
+		r.undecided(rule, "(*BadNode).SQL separator", w.pos(m.Pos()), fmt.Sprintf("%d blocks append a blank, %d append Token.Raw (want one each)", len(sepBlocks), len(rawBlocks)))
+		return
+	}
+	sep, raw := sepBlocks[0], rawBlocks[0]
+	var head *ssa.BasicBlock
+	for _, l := range naturalLoops(m) {
+		if l.body[raw] {
+			head = l.header
+		}
+	}
+	if head == nil {
+		r.undecided(rule, "(*BadNode).SQL separator", w.pos(m.Pos()), "Token.Raw is not appended in a loop")
+		return
+	}
+	for _, field := range []string{"Space", "Comments"} {
+		// edges that can only be taken when the field is empty, or when nothing has been written yet
+		refuted := func(b *ssa.BasicBlock, succ int) bool {
+			iff, ok := b.Instrs[len(b.Instrs)-1].(*ssa.If)
+			if !ok {
+				return false
+			}
+			if w.impliedByNonEmpty(iff.Cond, field) && succ == 1 {
+				return true
+			}
+			if w.refutedByNonEmpty(iff.Cond, field) && succ == 0 {
+				return true
+			}
+			// sql != "" (the accumulator: a string phi of the loop head)
+			if bo, ok := iff.Cond.(*ssa.BinOp); ok && isStringType(bo.X.Type()) {
+				if ph, isPhi := bo.X.(*ssa.Phi); isPhi && ph.Block() == head {
+					if c, ok := bo.Y.(*ssa.Const); ok && c.Value != nil && constant.StringVal(c.Value) == "" {
+						return (bo.Op == token.NEQ && succ == 1) || (bo.Op == token.EQL && succ == 0)
+					}
+				}
+			}
+			return false
+		}
+		seen := map[*ssa.BasicBlock]bool{}
+		var bypass func(b *ssa.BasicBlock) bool
+		bypass = func(b *ssa.BasicBlock) bool {
+			if b == sep || seen[b] {
+				return false
+			}
+			seen[b] = true
+			if b == raw {
+				return true
+			}
+			for i, s := range b.Succs {
+				if refuted(b, i) {
+					continue
+				}
+				if s == head {
+					continue
+				}
+				if bypass(s) {
+					return true
+				}
+			}
+			return false
+		}
+		// start after the loop head's own test
+		found := false
+		for _, s := range head.Succs {
+			if s != head && bypass(s) {
+				found = true
+			}
+		}
+		construct := "(*BadNode).SQL separator when Token." + field + " is non-empty"
+		if found {
+			r.bad(rule, construct, w.pos(sep.Instrs[0].Pos()), "a token that is not the first and has a non-empty "+field+" can be appended without the separator: no test of the form len(tok."+field+") > 0 guards the path that skips it (a/*c*/b and a b must not print as ab)")
+		} else {
+			r.ok(rule, construct, w.pos(sep.Instrs[0].Pos()), "every path that skips the separator takes the empty-"+field+" edge or the nothing-written-yet edge")
+		}
+	}
+}
+
+// tokenFieldLoad: v is a load of <*token.Token>.<field>.
+func (w *World) tokenFieldLoad(v ssa.Value) (string, bool) {
+	addr, ok := isLoad(v)
+	if !ok {
+		return "", false
+	}
+	fa, ok := addr.(*ssa.FieldAddr)
+	if !ok || !w.isTokenPtr(fa.X.Type()) {
+		return "", false
+	}
+	return fieldAddrName(fa), true
+}
+
+// lenSumOf: v is non-negative and positive whenever Token.<field> is non-empty: len(tok.field) or a sum of it with other lengths.
+func (w *World) lenSumOf(v ssa.Value, field string, depth int) bool {
+	if depth > 4 {
+		return false
+	}
+	switch x := v.(type) {
+	case *ssa.Call:
+		if bi, ok := x.Call.Value.(*ssa.Builtin); ok && bi.Name() == "len" {
+			return w.containsField(x.Call.Args[0], field, map[ssa.Value]bool{})
+		}
+	case *ssa.BinOp:
+		if x.Op == token.ADD {
+			return (w.lenSumOf(x.X, field, depth+1) && isLenLike(x.Y)) || (w.lenSumOf(x.Y, field, depth+1) && isLenLike(x.X))
+		}
+	}
+	return false
+}
+
+// containsField: v is Token.<field> or a string built by concatenation that contains it on every path
+// (phis are treated co-inductively: a loop that only appends keeps what it started with).
+func (w *World) containsField(v ssa.Value, field string, seen map[ssa.Value]bool) bool {
+	if f, ok := w.tokenFieldLoad(v); ok {
+		return f == field
+	}
+	if seen[v] {
+		return true
+	}
+	seen[v] = true
+	switch x := v.(type) {
+	case *ssa.BinOp:
+		if x.Op == token.ADD && isStringType(x.Type()) {
+			return w.containsField(x.X, field, seen) || w.containsField(x.Y, field, seen)
+		}
+	case *ssa.Phi:
+		for _, e := range x.Edges {
+			if !w.containsField(e, field, seen) {
+				return false
+			}
+		}
+		return true
+	}
+	return false
+}
+
+func isLenLike(v ssa.Value) bool {
+	switch x := v.(type) {
+	case *ssa.Call:
+		bi, ok := x.Call.Value.(*ssa.Builtin)
+		return ok && bi.Name() == "len"
+	case *ssa.BinOp:
+		return x.Op == token.ADD && isLenLike(x.X) && isLenLike(x.Y)
+	case *ssa.Const:
+		return x.Value != nil && x.Value.Kind() == constant.Int && constant.Sign(x.Value) >= 0
+	}
+	return false
+}
+
+func constIntIs(v ssa.Value, k int64) bool {
+	c, ok := v.(*ssa.Const)
+	if !ok || c.Value == nil || c.Value.Kind() != constant.Int {
+		return false
+	}
+	i, exact := constant.Int64Val(c.Value)
+	return exact && i == k
+}
+
+// impliedByNonEmpty: cond is true whenever Token.<field> is non-empty.
+func (w *World) impliedByNonEmpty(cond ssa.Value, field string) bool {
+	bo, ok := cond.(*ssa.BinOp)
+	if !ok {
+		return false
+	}
+	switch bo.Op {
+	case token.GTR:
+		return w.lenSumOf(bo.X, field, 0) && constIntIs(bo.Y, 0)
+	case token.GEQ:
+		return w.lenSumOf(bo.X, field, 0) && constIntIs(bo.Y, 1)
+	case token.LSS:
+		return w.lenSumOf(bo.Y, field, 0) && constIntIs(bo.X, 0)
+	case token.LEQ:
+		return w.lenSumOf(bo.Y, field, 0) && constIntIs(bo.X, 1)
+	case token.NEQ:
+		if w.lenSumOf(bo.X, field, 0) && constIntIs(bo.Y, 0) {
+			return true
+		}
+		if f, ok := w.tokenFieldLoad(bo.X); ok && f == field {
+			if c, ok := bo.Y.(*ssa.Const); ok && c.Value != nil && c.Value.Kind() == constant.String && constant.StringVal(c.Value) == "" {
+				return true
+			}
+		}
+	}
+	return false
+}
+
+// refutedByNonEmpty: cond is false whenever Token.<field> is non-empty.
+func (w *World) refutedByNonEmpty(cond ssa.Value, field string) bool {
+	bo, ok := cond.(*ssa.BinOp)
+	if !ok {
+		return false
+	}
+	switch bo.Op {
+	case token.EQL:
+		if w.lenSumOf(bo.X, field, 0) && constIntIs(bo.Y, 0) {
+			return true
+		}
+		if f, ok := w.tokenFieldLoad(bo.X); ok && f == field {
+			if c, ok := bo.Y.(*ssa.Const); ok && c.Value != nil && c.Value.Kind() == constant.String && constant.StringVal(c.Value) == "" {
+				return true
+			}
+		}
+	case token.LEQ:
+		return w.lenSumOf(bo.X, field, 0) && constIntIs(bo.Y, 0)
+	case token.LSS:
+		return w.lenSumOf(bo.X, field, 0) && constIntIs(bo.Y, 1)
+	}
+	return false
+}
+
+// instrDominates: a is executed before b on every path that reaches b.
+func instrDominates(a, b ssa.Instruction) bool {
+	if a.Block() != b.Block() {
+		return a.Block().Dominates(b.Block())
+	}
+	ia, ib := -1, -1
+	for i, in := range a.Block().Instrs {
+		if in == a {
+			ia = i
+		}
+		if in == b {
+			ib = i
+		}
+	}
+	return ia >= 0 && ia < ib
 }
